@@ -49,9 +49,14 @@ _TYPES = {'int': int, 'str': str, 'tuple': tuple, 'list': list, 'bool': bool, 'f
 
 
 class MiniEval:
-    def __init__(self, rule: str, env: dict):
+    def __init__(self, rule: str, env: dict, resolve=None, depth: int = 0):
+        """resolve(text of the called expression) -> ast.FunctionDef | None : lets the evaluator
+        step into small helper methods of the analysed program (self.<helper>(...)), so that an
+        'extract method' refactoring does not change what is decided."""
         self.rule = rule
         self.env = dict(env)
+        self.resolve = resolve
+        self.depth = depth
 
     def fail(self, node, why=''):
         raise AnalysisError(self.rule, f"construct outside the mini-evaluator fragment: "
@@ -165,6 +170,27 @@ class MiniEval:
             return True
         if isinstance(e, ast.Call) and norm(e.func) in self.env and callable(self.env[norm(e.func)]):
             return self.env[norm(e.func)](*[self.ev(a) for a in e.args])
+        if isinstance(e, ast.Call) and self.resolve is not None and self.depth < 3 and not e.keywords \
+                and not any(isinstance(a, ast.Starred) for a in e.args):
+            fn = self.resolve(norm(e.func))
+            if fn is not None and not isinstance(fn, ast.AsyncFunctionDef):
+                params = [a.arg for a in fn.args.posonlyargs + fn.args.args]
+                if params and params[0] in ('self', 'cls') and isinstance(e.func, ast.Attribute):
+                    params = params[1:]
+                if len(params) == len(e.args):
+                    child_env = {k: v for k, v in self.env.items() if not k.isidentifier()}
+                    for p_, a_ in zip(params, e.args):
+                        child_env[p_] = self.ev(a_)
+                    child = MiniEval(self.rule, child_env, self.resolve, self.depth + 1)
+                    out = child.run(fn.body)
+                    for k, v in child.env.items():      # attribute writes are visible to the caller
+                        if not k.isidentifier():
+                            self.env[k] = v
+                    if out[0] == 'return':
+                        return out[1]
+                    if out[0] == 'raise':
+                        raise _Raised(out[1])
+                    raise _Fault(out[1])
         if isinstance(e, ast.Call) and isinstance(e.func, ast.Name) and not e.keywords:
             if e.func.id == 'isinstance' and len(e.args) == 2:
                 v = self.ev(e.args[0])
